@@ -63,11 +63,15 @@ ALLOWED_SUB = {
 # next to characters that repr()/JSON must escape themselves (TAB, newline, NBSP, both quote characters, a backslash)
 ESCAPE_PATTERNS = ["^\\d+\t\\d+$", "\\w'\"", "a\\.b\n", "\\\\", "'", "\"'", "\\t", "\u00e9\\d", "\u00a0\\s",
                    "[\"']\\d", "^\\$", "\\d{2}\r", "\\'", "\x7f\\w"]
+# (kind of the declared property, [(kind, keywords) of each pattern element]): untyped constraints of one family, and
+# TYPED pattern elements that accept the same values but construct them differently (integer vs number)
 OVERLAP_FAMILIES = [
-    ("String", [{"minLength": 2}, {"maxLength": 4}, {"pattern": "^a"}]),
-    ("Number", [{"minimum": 0}, {"maximum": 10}, {"multipleOf": 2}]),
-    ("Integer", [{"minimum": 0}, {"maximum": 10}, {"multipleOf": 2}]),
-    ("Element", [{"minLength": 2}, {"maximum": 10}, {"enum": ["ab", 1, 2, None, "abcde"]}]),
+    ("String", [("Element", {"minLength": 2}), ("Element", {"maxLength": 4}), ("String", {"pattern": "^a"})]),
+    ("Number", [("Element", {"minimum": 0}), ("Integer", {"maximum": 10}), ("Element", {"multipleOf": 2})]),
+    ("Integer", [("Number", {"minimum": 0}), ("Element", {"maximum": 10}), ("Number", {"multipleOf": 2})]),
+    ("Integer", [("Number", {}), ("Element", {}), ("Number", {"minimum": -5})]),
+    ("Element", [("Element", {"minLength": 2}), ("Number", {"maximum": 10}),
+                 ("Element", {"enum": ["ab", 1, 2, None, "abcde"]})]),
 ]
 PY_NAMES = ["a", "b", "c", "ab", "a_b", "class_", "x1", "value", "default", "description", "required", "enum"]
 SOURCES = ["class", "a-b", "$id", "1x", "not", "d", "A", ""]
@@ -290,12 +294,19 @@ class RCfg:
                  descriptions=True, nothing=True, formats=True,
                  bool_lookalike_literals=True, valid_defaults_only=False,
                  equal_to_default_kw=False, kw_max=3, literal_constraints=True,
-                 compose_bias=0):
+                 compose_bias=0, extreme_literals=False):
         self.__dict__.update(locals())
         del self.__dict__["self"]
 
 
+# literals that a lossy conversion (int -> float, float formatting, repr of a str) would not survive
+EXTREME_LITERALS = [2 ** 53 + 1, 2 ** 63 - 1, 10 ** 23, -(2 ** 64) - 1, 1e22, 1e-7, 5e-324, 1.7976931348623157e308, -0.0,
+                    0.1 + 0.2, 123456789.123456789, [2 ** 53 + 1], {"a": 10 ** 23}, "\u2028", "\x7f", "\ud7ff"]
+
+
 def _literal(cfg):
+    if getattr(cfg, "extreme_literals", False):
+        return st.one_of(jv.json_values(max_leaves=4), jv.json_values(max_leaves=4), st.sampled_from(EXTREME_LITERALS))
     return jv.json_values(max_leaves=4)
 
 
@@ -310,6 +321,8 @@ def _lit_kw(draw, cfg, name):
         return draw(st.sampled_from(["d", "some text", "two\nlines", "quote \" here",
                                      "a long description " * 9, "x" * 101, "é" * 120]))
     if name in ("minimum", "maximum", "exclusiveMinimum", "exclusiveMaximum"):
+        if getattr(cfg, "extreme_literals", False) and draw(st.integers(0, 4)) == 0:
+            return draw(st.sampled_from([x for x in EXTREME_LITERALS if isinstance(x, (int, float))]))
         return draw(jv.numbers)
     if name == "multipleOf":
         return draw(st.sampled_from([1, 2, 3, 0.5, 0.25, 1.5, 2.0]))
@@ -487,8 +500,9 @@ def _node(draw, cfg, depth, gen, kinds=None):
                         pats = draw(st.lists(st.sampled_from(pool), min_size=2, max_size=3, unique=True))
                         first, rest = draw(st.sampled_from(OVERLAP_FAMILIES))
                         rest = draw(st.permutations(rest))
-                        subs[k] = {p: {"id": gen.new_id(), "kind": "Element", "kw": dict(part)}
-                                   for p, part in zip(pats, rest)}
+                        subs[k] = {p: {"id": gen.new_id(), "kind": pk,
+                                       "kw": dict(part) if cfg.literal_constraints else {}}
+                                   for p, (pk, part) in zip(pats, rest)}
                         force = (pname, first)
                 if force is None:
                     subs[k] = {p: draw(sub_node()) for p in pats}
